@@ -528,6 +528,10 @@ func (m *Master) message(fid string, msg *scheduler.Call_Message) (mesos.Respons
 					exit, final = 3, mesos.TASK_FAILED
 				case ErrError:
 					voluntary, final = false, mesos.TASK_KILLED
+				case Dies:
+					// the process was killed by a signal (segfault, OOM killer): Go's ProcessState.ExitCode() is -1,
+					// the executor reports that together with voluntaryTermination=true and TASK_FAILED
+					exit, final = -1, mesos.TASK_FAILED
 				case Silent:
 					return nullResp{}, nil // never terminates: the environment's hook timeout must fire
 				}
